@@ -19,7 +19,7 @@ def tasks(tier):
     pulses = [Task('props.wire:run', name='C06/wire.pulse_exec.' + q, fname='c06_pulse_exec', kwargs=dict(q=q), timeout=600) for q in c06_pulse_functions()]
     pulses += [Task('props.wire:run', name='C06/wire.pulse_exec.G3.' + q, fname='c06_pulse_exec', kwargs=dict(q=q, G=3), timeout=900) for q in c06_pulse_functions()]
     W_ = lambda name, fname, **kw: Task('props.wire:run', name='C06/wire.' + name, fname=fname, kwargs=kw, timeout=600)
-    extra = [W_('new_pop_exec.' + q, 'c06_new_pop_exec', q=q) for q in ('phi_2D_to_3D_admix', 'phi_3D_to_4D', 'phi_4D_to_5D')] + \
+    extra = [W_('simplex_guards', 'c06_simplex_guards')] + [W_('new_pop_exec.' + q, 'c06_new_pop_exec', q=q) for q in ('phi_2D_to_3D_admix', 'phi_3D_to_4D', 'phi_4D_to_5D')] + \
             [W_('new_pop_exec.G3.' + q, 'c06_new_pop_exec', q=q, G=3) for q in ('phi_2D_to_3D_admix', 'phi_3D_to_4D', 'phi_4D_to_5D')] + \
             [W_('phi_reorder.%dD' % K, 'c06_phi_reorder', K=K) for K in (2, 3, 4)] + \
             [W_('remove_pop.2D.1', 'c06_remove_filter', K=2, popnum=1), W_('remove_pop.3D.2', 'c06_remove_filter', K=3, popnum=2), W_('remove_pop.4D.4', 'c06_remove_filter', K=4, popnum=4),
